@@ -145,6 +145,8 @@ package env
 //@ ensures found: foundV(e, symbol) ==> result.1 == nil && result.0 == lookupV(e, symbol)
 //@ ensures miss: !foundV(e, symbol) ==> result.1 != nil && result.0 == NilValue
 //@ ensures errfresh: result.1 == nil || fresh(payload(result.1))
+// ASSUMPTION (environment class, C01): every value bound in an environment is a valid reflect.Value
+//@ free_ensures [C01] okv: rvValid(result.0)
 //@ use foundV-def(e, symbol)
 //@ use lookupV-def(e, symbol)
 //@ critical 0 snapshot: forall k string :: (has(e.values, k) <==> acq(has(e.values, k))) && e.values[k] == acq(e.values[k])
